@@ -473,7 +473,15 @@ func runArgOrigin(prog *Prog, sc StaticCheck) *StaticResult {
 					// produced in the same basic block as the consuming call: one fresh value per execution of the call
 					if oc, ok := args[argIdx].(*ssa.Call); ok && oc.Call.StaticCallee() != nil && contractName(oc.Call.StaticCallee()) == sc.Args["origin"] && oc.Block() == in.Block() {
 						// and used by nothing else
-						if refs := oc.Referrers(); refs != nil && len(*refs) == 1 {
+						uses := 0
+						if refs := oc.Referrers(); refs != nil {
+							for _, r := range *refs {
+								if _, dbg := r.(*ssa.DebugRef); !dbg {
+									uses++
+								}
+							}
+						}
+						if uses == 1 {
 							okOrigin = true
 						}
 					}
